@@ -12,61 +12,76 @@
 (*   for mutable storage, Injective (no two valid indices share an offset).     *)
 (*                                                                              *)
 (* IMPLEMENTATION-SHAPED part: the acceptance tests of tensor.rs / layout.rs     *)
-(* transcribed over Word limbs, evaluated either exactly (wrap = FALSE) or with   *)
-(* the wrapping 64-bit arithmetic of a release build (wrap = TRUE), and over TLC  *)
-(* ints modulo M for the K-bit exhaustive search in MC_Construct.                 *)
+(* transcribed over Word limbs (64-bit usize) and over TLC ints with word size M   *)
+(* (K-bit exhaustive search in MC_Construct), in the arithmetic modes of           *)
+(* Overlap.tla:  "exact";  "checked" = the CURRENT code, whose validation paths      *)
+(* use LayoutExt::checked_min_data_len (None on overflow => reject; /repo commit     *)
+(* "fix: tensor constructors accepted layouts whose element count or maximum          *)
+(* offset overflows") while contiguous strides are still computed with wrapping       *)
+(* multiplication;  "wrap" = the code before that repair (kept to generate            *)
+(* wrap-around boundary inputs and to name a regression).                             *)
 EXTENDS Overlap
 
 \* ------------------------------------------------------------------ Words
 \* contiguous strides as DynLayout::contiguous_shape_and_strides computes them
-\* (stride *= shape[i] from the innermost dim, wrapping)
+\* (stride *= shape[i] from the innermost dim; WRAPPING in the old and in the current code)
 RECURSIVE ContigStridesWR(_, _, _, _)
 ContigStridesWR(shape, i, acc, wrap) ==
   IF i = 0 THEN <<>>
-  ELSE Append(ContigStridesWR(shape, i - 1, Ww(WMul(acc, shape[i]), wrap), wrap), acc)
+  ELSE Append(ContigStridesWR(shape, i - 1, IF wrap THEN Wrap64(WMul(acc, shape[i])) ELSE WMul(acc, shape[i]), wrap), acc)
 ContigStridesW(shape, wrap) == ContigStridesWR(shape, Len(shape), WOne, wrap)
+CodeStridesW(shape, mode) == ContigStridesW(shape, mode # "exact")
 
 TrueMaxOffsetW(shape, strides) ==
   WSum([i \in 1..Len(shape) |-> WMul(WSub(shape[i], WOne), strides[i])])
-\* Layout::min_data_len
-MinDataLenW(shape, strides, wrap) ==
-  IF IsEmptyW(shape) THEN WZero
-  ELSE Ww(WAdd(TrueMaxOffsetW(shape, strides), WOne), wrap)
+TrueMinLenW(shape, strides) == IF IsEmptyW(shape) THEN WZero ELSE WAdd(TrueMaxOffsetW(shape, strides), WOne)
+\* Layout::min_data_len (wrapping) / LayoutExt::checked_min_data_len:
+\* MinLenDefined is FALSE exactly when checked_min_data_len returns None (all terms are
+\* non-negative, so some partial sum overflows iff the total does)
+MinLenDefined(shape, strides, mode) == mode # "checked" \/ Fits64(TrueMinLenW(shape, strides))
+MinDataLenW(shape, strides, mode) == Ww(TrueMinLenW(shape, strides), mode)
 \* Layout::len
-LenW(shape, wrap) == Ww(WProd(shape), wrap)
+LenW(shape, mode) == Ww(WProd(shape), mode)
 
 \* ---- the contract
 SafeW(shape, strides, len) == IsEmptyW(shape) \/ WLt(TrueMaxOffsetW(shape, strides), len)
 CountFitsW(shape) == Fits64(WProd(shape))
 
 \* ---- acceptance tests, transcribed.  `len` is the storage length (a Word).
-\* try_from_data / from_data:  layout.min_data_len() != data.len()  => error
-AcceptFromDataW(shape, len, wrap) ==
-  MinDataLenW(shape, ContigStridesW(shape, wrap), wrap) = len
-\* from_data_with_strides: DisallowOverlap, then min_data_len() > len => error
-AcceptWithStridesW(shape, strides, len, wrap) ==
-  /\ ~MayOverlapImplW(shape, strides, wrap)
-  /\ WLe(MinDataLenW(shape, strides, wrap), len)
-\* from_slice_with_strides: AllowOverlap, min_data_len() > len => error
-AcceptSliceWithStridesW(shape, strides, len, wrap) ==
-  WLe(MinDataLenW(shape, strides, wrap), len)
-\* from_storage_and_layout: assert len >= min_data_len; assert !MUTABLE || !may_overlap
-AcceptStorageLayoutW(shape, strides, len, mutable, wrap) ==
-  /\ WLe(MinDataLenW(shape, strides, wrap), len)
-  /\ (mutable => ~MayOverlapImplW(shape, strides, wrap))
+\* try_from_data / from_data:  checked_min_data_len() != Some(data.len())  => error
+AcceptFromDataW(shape, len, mode) ==
+  LET st == CodeStridesW(shape, mode) IN
+  MinLenDefined(shape, st, mode) /\ MinDataLenW(shape, st, mode) = len
+\* from_data_with_strides: DisallowOverlap, then checked_min_data_len() is None or > len => error
+AcceptWithStridesW(shape, strides, len, mode) ==
+  /\ ~MayOverlapImplW(shape, strides, mode)
+  /\ MinLenDefined(shape, strides, mode) /\ WLe(MinDataLenW(shape, strides, mode), len)
+\* from_slice_with_strides: AllowOverlap, same length test
+AcceptSliceWithStridesW(shape, strides, len, mode) ==
+  MinLenDefined(shape, strides, mode) /\ WLe(MinDataLenW(shape, strides, mode), len)
+\* from_storage_and_layout: assert checked_min_data_len().is_some_and(<= len); assert !MUTABLE || !may_overlap
+AcceptStorageLayoutW(shape, strides, len, mutable, mode) ==
+  /\ MinLenDefined(shape, strides, mode) /\ WLe(MinDataLenW(shape, strides, mode), len)
+  /\ (mutable => ~MayOverlapImplW(shape, strides, mode))
 
 \* ------------------------------------------------------------------- ints
-\* the same over TLC ints modulo M (M = 0: exact) for the exhaustive K-bit search
+\* the same over TLC ints with word size M (M = 0: exact) for the exhaustive K-bit search
 RECURSIVE ContigStridesMR(_, _, _, _)
 ContigStridesMR(shape, i, acc, M) ==
   IF i = 0 THEN <<>>
   ELSE Append(ContigStridesMR(shape, i - 1, Wm(acc * shape[i], M), M), acc)
 ContigStridesM(shape, M) == ContigStridesMR(shape, Len(shape), 1, M)
-MinDataLenM(shape, strides, M) ==
-  IF IsEmpty(shape) THEN 0 ELSE Wm(MaxOff(shape, strides) + 1, M)
+TrueMinLen(shape, strides) == IF IsEmpty(shape) THEN 0 ELSE MaxOff(shape, strides) + 1
+MinLenDefinedM(shape, strides, M, mode) == mode # "checked" \/ ~OvM(TrueMinLen(shape, strides), M)
+MinDataLenM(shape, strides, M, mode) ==
+  IF mode = "wrap" THEN Wm(TrueMinLen(shape, strides), M) ELSE TrueMinLen(shape, strides)
 Safe(shape, strides, len) == IsEmpty(shape) \/ MaxOff(shape, strides) < len
-AcceptFromDataM(shape, len, M) == MinDataLenM(shape, ContigStridesM(shape, M), M) = len
-AcceptWithStridesM(shape, strides, len, M) ==
-  ~MayOverlapImplM(shape, strides, M, FALSE) /\ MinDataLenM(shape, strides, M) <= len
-AcceptSliceWithStridesM(shape, strides, len, M) == MinDataLenM(shape, strides, M) <= len
+AcceptFromDataM(shape, len, M, mode) ==
+  LET st == ContigStridesM(shape, M) IN
+  MinLenDefinedM(shape, st, M, mode) /\ MinDataLenM(shape, st, M, mode) = len
+AcceptWithStridesM(shape, strides, len, M, mode) ==
+  /\ ~MayOverlapImplM(shape, strides, M, FALSE, mode)
+  /\ MinLenDefinedM(shape, strides, M, mode) /\ MinDataLenM(shape, strides, M, mode) <= len
+AcceptSliceWithStridesM(shape, strides, len, M, mode) ==
+  MinLenDefinedM(shape, strides, M, mode) /\ MinDataLenM(shape, strides, M, mode) <= len
 =============================================================================
